@@ -131,7 +131,7 @@ def main():
                                  data_pipeline_fw=job["fw"], np_chunks_path=chunk_dir, delete_chunks_after_training=True, scale=1.0,
                                  crop_hw=(160, 160), use_augmentations_train=False)
             mc = get_model_config(init_weight="default", backbone_config=plain["model_config"]["backbone_config"]["unet"] and {"unet": plain["model_config"]["backbone_config"]["unet"]},
-                                  head_configs={job["model"]: plain["model_config"]["head_configs"][job["model"]]})
+                                  head_configs=(job["model"] if job.get("heads") == "default" else {job["model"]: plain["model_config"]["head_configs"][job["model"]]}))
             tc = get_trainer_config(batch_size=1, shuffle_train=False, num_workers=0, ckpt_save_top_k=1, ckpt_save_last=True,
                                     trainer_num_devices=1, trainer_accelerator="cpu", enable_progress_bar=False, steps_per_epoch=1,
                                     max_epochs=1, seed=1000, use_wandb=job["wandb"], save_ckpt=job["ckpt"], save_ckpt_path=out_dir,
